@@ -239,6 +239,12 @@ def install(world):
             return x
         if isinstance(x, SBool):
             return SInt(TInt.unwrap(x))
+        if isinstance(x, SReal):
+            # truncation toward zero (of the exact value)
+            t = x.t
+            if z3.is_app(t) and t.decl().name() == 'fl':
+                t = t.arg(0)
+            return SInt(z3.If(t >= 0, z3.ToInt(t), -z3.ToInt(-t)))
         raise Unsupported('int() of %r' % (x,))
     reg('int', b_int)
 
